@@ -16,6 +16,7 @@ package http2
 // `Req.H2.ConnSeq` (clientRun / serverRun over a stateful codec) in the Lean driver.
 
 import (
+	"os"
 	"bytes"
 	"context"
 	"errors"
@@ -82,7 +83,7 @@ func c01NewSeqConn(limit uint32) (*c01SeqConn, error) {
 		a.c.Close()
 		return nil, err
 	}
-	c.srv.SetDeadline(time.Now().Add(60 * time.Second))
+	c.srv.SetDeadline(time.Now().Add(15 * time.Minute)) // the waits below are event driven; this only bounds a run-away connection
 	pre := make([]byte, len(xhttp2.ClientPreface))
 	if _, err := io.ReadFull(c.srv, pre); err != nil || string(pre) != xhttp2.ClientPreface {
 		c.close()
@@ -256,6 +257,17 @@ func c01GenSeqReq(r *rand.Rand, prev *c01SeqReq, limit uint32) *c01SeqReq {
 	return q
 }
 
+// c01SeqHarnessTimeout: the HARNESS gave up waiting (its own time limit, or the read deadline of its
+// peer connection): infrastructure, not behaviour of the library — such a sequence is skipped and
+// counted, never judged (the lane fails if more than a few per cent of the sequences end this way:
+// a real hang of the code under test is deterministic and shows up there).
+const c01SeqHarnessTimeout = "harness time-out waiting for the request to end"
+
+func c01IsTimeout(err error) bool {
+	var ne net.Error
+	return errors.Is(err, os.ErrDeadlineExceeded) || (errors.As(err, &ne) && ne.Timeout())
+}
+
 // c01RunSeqReq runs one request on the connection and returns the header blocks the peer decoded
 // for it (in arrival order), the RoundTrip error and, if the connection broke, why.
 func c01RunSeqReq(c *c01SeqConn, q *c01SeqReq) (blocks [][][2]string, rtErr error, fatal string) {
@@ -306,7 +318,7 @@ func c01RunSeqReq(c *c01SeqConn, q *c01SeqReq) (blocks [][][2]string, rtErr erro
 		c.fr.WriteHeaders(xhttp2.HeadersFrameParam{StreamID: id, BlockFragment: hb.Bytes(), EndHeaders: true, EndStream: true})
 	}
 	finished := false
-	timeout := time.After(20 * time.Second)
+	timeout := time.After(90 * time.Second) // event driven below; only a stalled machine gets here
 	for {
 		select {
 		case ev := <-c.evs:
@@ -335,9 +347,13 @@ func c01RunSeqReq(c *c01SeqConn, q *c01SeqReq) (blocks [][][2]string, rtErr erro
 				c.fr.WriteRSTStream(ev.id, xhttp2.ErrCodeProtocol)
 			case "fatal":
 				c.dead = true
+				if c01IsTimeout(ev.err) {
+					return blocks, rtErr, c01SeqHarnessTimeout
+				}
 				select {
 				case rtErr = <-done:
-				case <-time.After(5 * time.Second):
+				case <-time.After(30 * time.Second):
+					return blocks, rtErr, c01SeqHarnessTimeout
 				}
 				return blocks, rtErr, ev.err.Error()
 			case "pingack":
@@ -351,7 +367,7 @@ func c01RunSeqReq(c *c01SeqConn, q *c01SeqReq) (blocks [][][2]string, rtErr erro
 			c.fr.WritePing(false, [8]byte{1})
 		case <-timeout:
 			c.dead = true
-			return blocks, rtErr, "time-out waiting for the request to end"
+			return blocks, rtErr, c01SeqHarnessTimeout
 		}
 	}
 }
@@ -399,6 +415,7 @@ func TestVerif_C01_h2seq(t *testing.T) {
 		var line, impl, human []string
 		ok, why := true, ""
 		refusedBefore, nontriv := false, false
+		skipped := false
 		lim := "-"
 		if limit != 0 {
 			lim = fmt.Sprint(limit)
@@ -409,6 +426,12 @@ func TestVerif_C01_h2seq(t *testing.T) {
 			prev = q
 			s.Begin(id, fmt.Sprintf("limit=%s request %d: %s %q", lim, k, q.kind, q.fc.Header))
 			blocks, rtErr, fatal := c01RunSeqReq(c, q)
+			if fatal == c01SeqHarnessTimeout {
+				skipped = true
+				count("skipped:harness-timeout")
+				t.Logf("sequence %d request %d (%s): %s — skipped, not judged", i, k, q.kind, fatal)
+				break
+			}
 			mk := "send"
 			if q.kind == "cancelbefore" {
 				mk = "cancelbefore"
@@ -504,6 +527,9 @@ func TestVerif_C01_h2seq(t *testing.T) {
 			}
 		}
 		c.close()
+		if skipped {
+			continue
+		}
 		s.Case("c01connseq "+lim+" "+strings.Join(line, " "), strings.Join(impl, " ; "), ok, "", nontriv, "limit="+lim+" "+strings.Join(human, " ")+" "+why)
 	}
 	for _, b := range []string{"block-decoded", "accepted-after-local-refusal", "err:toolarge", "err:header", "err:host", "cancelled:", "trailer-block",
@@ -511,6 +537,9 @@ func TestVerif_C01_h2seq(t *testing.T) {
 		if hist[b] == 0 {
 			t.Errorf("lane did not reach bucket %q (vacuous pass refused)", b)
 		}
+	}
+	if n := hist["skipped:harness-timeout"]; n > 3 && n*100 > 3*nseq {
+		t.Errorf("%d of %d sequences ended in the harness's own time-out: more than a stalled machine explains", n, nseq)
 	}
 	s.Finish()
 }
